@@ -319,23 +319,56 @@ impl<'a, 'b> W<'a, 'b> {
     }
 }
 
+/// Leading blank lines / indentation before the document proper: positions are relative to the
+/// text as it is on disk, not to the first non-blank character. `spaces`: may the first token be
+/// indented on its own line (not a `---` marker, a comment or a block mapping)?
+fn lead(w: &mut W, spaces: bool) {
+    if !w.layout || !w.u.chance(1, 4) {
+        return;
+    }
+    let nl = w.u.below(4);
+    for _ in 0..nl {
+        if w.u.chance(1, 3) {
+            w.put("  ");
+        }
+        w.put("\n");
+    }
+    if spaces {
+        let sp = w.u.below(4);
+        w.put(&" ".repeat(sp));
+        if sp == 0 && nl == 0 {
+            w.put(" ");
+        }
+    } else if nl == 0 {
+        w.put("\n");
+    }
+}
+
 pub fn write_doc(v: &V, style: Style, u: &mut Choices, layout: bool) -> Written {
     let mut w = W { u, out: String::new(), line: 0, col: 0, pos: BTreeMap::new(), plain: 0, quoted: 0, layout };
     match style {
-        Style::JsonCompact => w.json(v, "", false, 0, 0),
+        Style::JsonCompact => {
+            lead(&mut w, true);
+            w.json(v, "", false, 0, 0)
+        }
         Style::JsonPretty => {
+            lead(&mut w, true);
             let unit = [2usize, 4, 1, 3][w.u.below(4)];
             w.json(v, "", true, unit, 0)
         }
         Style::YamlFlow => {
             if layout && w.u.chance(1, 4) {
+                lead(&mut w, false);
                 w.put("---\n");
+            } else {
+                lead(&mut w, true);
             }
             w.flow(v, "", 0)
         }
         Style::YamlBlock => {
             let unit = [2usize, 4, 3][w.u.below(3)];
             let seq_indent = w.u.chance(1, 2);
+            lead(&mut w, false);
             if layout && w.u.chance(1, 4) {
                 w.put("# leading comment\n");
             }
